@@ -250,7 +250,7 @@ const STORAGES: [Storage; 6] = [
 	},
 ];
 
-const MODES: [&str; 8] = ["direct write", "write through pointer variable", "write through pointer parameter", "write through pointer to pointer", "write through aggregate pointer parameter", "read through view parameter", "re-pointed pointer", "read through pointer parameter"];
+const MODES: [&str; 10] = ["direct write", "write through pointer variable", "write through pointer parameter", "write through pointer to pointer", "write through aggregate pointer parameter", "read through view parameter", "re-pointed pointer", "read through pointer parameter", "write through pointer to the sized array", "read through pointer to the sized array"];
 
 /// Initial value indices of each location for a storage (which of v0..v4 it holds).
 fn initial_indices(st: &Storage) -> Vec<usize>
@@ -342,6 +342,26 @@ fn access_program(ti: usize, si: usize, mi: usize) -> Option<(String, String)>
 			main.push_str(&format!("\tvar r: {t} = get_from({agg});\n\tprint!(r, \"\\n\");\n"));
 			extra_expected = format!("{}\n", before[st.target]);
 		}
+		"write through pointer to the sized array" | "read through pointer to the sized array" =>
+		{
+			// `&[3]T`, `&[2]P`, `&[2][2]T`: the array passed by pointer with its length in the type
+			let (agg, ty, path) = st.aggregate?;
+			let rest = ty.strip_prefix("[]")?;
+			let outer = st.decl.split("var s: [").nth(1).and_then(|r| r.split(']').next())?;
+			let sized = fill(&format!("&[{outer}]{rest}"));
+			if mode.starts_with("write")
+			{
+				prelude.push_str(&format!("fn set_sized(q: {sized})\n{{\n\t{path} = {w};\n}}\n"));
+				main.push_str(&format!("\tset_sized(&{agg});\n"));
+				after[st.target] = show(w);
+			}
+			else
+			{
+				prelude.push_str(&format!("fn get_sized(q: {sized}) -> {t}\n{{\n\treturn: {path}\n}}\n"));
+				main.push_str(&format!("\tvar r: {t} = get_sized(&{agg});\n\tprint!(r, \"\\n\");\n"));
+				extra_expected = format!("{}\n", before[st.target]);
+			}
+		}
 		"re-pointed pointer" =>
 		{
 			// a pointer first aimed at another location, then re-pointed to the target
@@ -362,6 +382,105 @@ fn access_program(ti: usize, si: usize, mi: usize) -> Option<(String, String)>
 	Some((format!("{prelude}{main}"), expected))
 }
 
+
+// ---------------------------------------------------------------------------------------------
+// Family 5: aggregate literals whose elements are constants, variables and expressions
+
+pub const LITERAL_POSITIONS: [&str; 6] = ["typed initialiser", "call argument", "structure member", "rows of a two-dimensional literal", "structure literal", "structure literal, members reversed"];
+
+/// Element i of kind k (0 literal, 1 run-time variable, 2 expression over a run-time variable)
+/// and its value; the variables k0..k3 hold 20..23 at run time.
+fn literal_element(i: usize, kind: usize) -> (String, i64)
+{
+	match kind
+	{
+		0 => (format!("{}", 10 + i), 10 + i as i64),
+		1 => (format!("k{i}"), 20 + i as i64),
+		_ => (format!("k{i} + 100"), 120 + i as i64),
+	}
+}
+
+/// One program per (position, n) holding every pattern of element kinds; returns text and output.
+pub fn literal_program(position: usize, n: usize) -> (String, String)
+{
+	let patterns = 3usize.pow(n as u32);
+	let mut prelude = String::new();
+	let mut body = String::new();
+	let mut expected = String::new();
+	let print_list = |names: &[String]| -> String {
+		let args: Vec<String> = names.iter().map(|l| format!("{l}, \" \"")).collect();
+		format!("\tprint!({}, \"\\n\");\n", args.join(", "))
+	};
+	match position
+	{
+		1 =>
+		{
+			let names: Vec<String> = (0..n).map(|i| format!("v[{i}]")).collect();
+			prelude.push_str(&format!("fn show(v: []i32)\n{{\n{}}}\n", print_list(&names)));
+		}
+		2 => prelude.push_str(&format!("struct H\n{{\n\tpre: i32,\n\tarr: [{n}]i32,\n\tpost: i32,\n}}\n")),
+		4 | 5 => prelude.push_str("struct Q\n{\n\tm0: i32,\n\tm1: i32,\n\tm2: i32,\n\tm3: i32,\n}\n"),
+		_ =>
+		{}
+	}
+	for p in 0..patterns
+	{
+		let kinds: Vec<usize> = (0..n).map(|i| (p / 3usize.pow(i as u32)) % 3).collect();
+		let elems: Vec<(String, i64)> = kinds.iter().enumerate().map(|(i, k)| literal_element(i, *k)).collect();
+		let list = elems.iter().map(|e| e.0.clone()).collect::<Vec<_>>().join(", ");
+		let values = elems.iter().map(|e| e.1.to_string()).collect::<Vec<_>>();
+		match position
+		{
+			0 =>
+			{
+				body.push_str(&format!("\tvar a{p}: [{n}]i32 = [{list}];\n"));
+				body.push_str(&print_list(&(0..n).map(|i| format!("a{p}[{i}]")).collect::<Vec<_>>()));
+				expected.push_str(&format!("{} \n", values.join(" ")));
+			}
+			1 =>
+			{
+				body.push_str(&format!("\tshow([{list}]);\n"));
+				expected.push_str(&format!("{} \n", values.join(" ")));
+			}
+			2 =>
+			{
+				body.push_str(&format!("\tvar h{p}: H = H {{ pre: 1, arr: [{list}], post: 2 }};\n"));
+				let mut names = vec![format!("h{p}.pre")];
+				names.extend((0..n).map(|i| format!("h{p}.arr[{i}]")));
+				names.push(format!("h{p}.post"));
+				body.push_str(&print_list(&names));
+				expected.push_str(&format!("1 {} 2 \n", values.join(" ")));
+			}
+			3 =>
+			{
+				// second row: the same pattern mirrored
+				let mirrored: Vec<(String, i64)> = kinds.iter().rev().enumerate().map(|(i, k)| literal_element(i, *k)).collect();
+				let list2 = mirrored.iter().map(|e| e.0.clone()).collect::<Vec<_>>().join(", ");
+				body.push_str(&format!("\tvar g{p}: [2][{n}]i32 = [[{list}], [{list2}]];\n"));
+				let mut names: Vec<String> = (0..n).map(|i| format!("g{p}[0][{i}]")).collect();
+				names.extend((0..n).map(|i| format!("g{p}[1][{i}]")));
+				body.push_str(&print_list(&names));
+				let values2 = mirrored.iter().map(|e| e.1.to_string()).collect::<Vec<_>>();
+				expected.push_str(&format!("{} {} \n", values.join(" "), values2.join(" ")));
+			}
+			_ =>
+			{
+				// structure literal with four members (n is 4 here)
+				let mut members: Vec<String> = (0..4).map(|i| format!("m{i}: {}", elems[i].0)).collect();
+				if position == 5
+				{
+					members.reverse();
+				}
+				body.push_str(&format!("\tvar q{p}: Q = Q {{ {} }};\n", members.join(", ")));
+				body.push_str(&print_list(&(0..4).map(|i| format!("q{p}.m{i}")).collect::<Vec<_>>()));
+				expected.push_str(&format!("{} \n", values.join(" ")));
+			}
+		}
+	}
+	let text = format!("{prelude}fn run(k0: i32, k1: i32, k2: i32, k3: i32)\n{{\n{body}}}\nfn main() -> u8\n{{\n\trun(20, 21, 22, 23);\n\treturn: 5\n}}\n");
+	(text, expected)
+}
+
 // ---------------------------------------------------------------------------------------------
 
 pub fn drive(d: &mut Driver)
@@ -377,6 +496,19 @@ pub fn drive(d: &mut Driver)
 		jobs.push(json!({"family": "casts", "type": ti}));
 	}
 	jobs.push(json!({"family": "other comparisons"}));
+	// family 5
+	for position in 0..LITERAL_POSITIONS.len()
+	{
+		for n in 1..=4usize
+		{
+			if position >= 4 && n != 4
+			{
+				continue;
+			}
+			jobs.push(json!({"family": "aggregate literals", "position": position, "n": n}));
+		}
+	}
+	d.bound("family 5: aggregate literals", json!({"positions": LITERAL_POSITIONS, "lengths": [1, 4], "element kinds": ["literal", "run-time variable", "expression over a run-time variable"], "patterns": "all 3^n"}));
 	d.bound("family 1: integer types", json!(types.iter().map(|i| INT_TYPES[*i].name).collect::<Vec<_>>()));
 	d.bound("family 1: operand values per type", json!(if quick { 8 } else { 14 }));
 	// family 2
@@ -526,6 +658,19 @@ pub fn work(spec: &Value, w: &mut WorkerCtx)
 			{
 				w.result.validated += cells - 1;
 				w.result.sample(|| json!({"family": "comparisons", "type": t.name, "cells": cells, "first_row": expected.lines().next()}));
+			}
+		}
+		"aggregate literals" =>
+		{
+			let position = spec["position"].as_u64().unwrap() as usize;
+			let n = spec["n"].as_u64().unwrap() as usize;
+			let (text, expected) = literal_program(position, n);
+			let cells = 3u64.pow(n as u32);
+			w.result.states += cells;
+			w.result.transitions += cells;
+			if expect_output(&text, &expected, 5, &format!("aggregate literals:{}", LITERAL_POSITIONS[position]), json!({"family": "aggregate literals", "position": position, "n": n}), w)
+			{
+				w.result.validated += cells - 1;
 			}
 		}
 		"other comparisons" =>
